@@ -44,6 +44,9 @@ def runs(prop, tier):
           [["--n", 4, "--alpha", "H3", "--amp", 5, "--ks", "2,3", "--orient", o] for o in (0, 1, 2)] + [["--n", 5, "--alpha", "H3", "--amp", 5, "--ks", "2", "--max-m", 6, "--orient", o] for o in (0, 1)]),
          ("positional output iterator (begin() of a pre-sized vector instead of a back_inserter): G(4) x A3, G(5) x A2, blob grammar x M3, k in {%s}" % ks_q,
           [["--n", 4, "--alpha", "A3", "--ks", ks_q, "--outiter", 1], ["--n", 5, "--alpha", "A2", "--ks", ks_q, "--outiter", 1], ["--grammar", "blobs:3:2", "--alpha", "M3", "--ks", ks_q, "--outiter", 1]]),
+         ("integral weight type (long): G(0..4) x A3, G(5) x {1,100}, amplified gadgets over G(4) x {1,1000,2000}, theta graphs with chords, k in {%s}" % ks_q,
+          [["@long", "--n", n, "--alpha", "A3", "--ks", ks_q] for n in range(2, 5)] + [["@long", "--n", 5, "--alpha", "H2", "--ks", ks_q], ["@long", "--n", 4, "--alpha", "H3", "--amp", 5, "--ks", "2,3"],
+           ["@long", "--families", "thetac:3:4", "--alpha", "A2H", "--ks", "2,3", "--wchunks", 32]]),
          ("theta graphs with chords (11 vertices, many non-spanner edges competing for one heavy edge): edge #0 = 1000, every other edge over {1,2}, both orientations",
           [["--families", "thetac:3:4", "--alpha", "A2H", "--ks", "2,3", "--wchunks", 32, "--orient", o] for o in (0, 1)]),
          ("fixed menu: 1200 pseudo-random sparse graphs n=8..20 x 3 pseudo-random weightings in 1..9, and x every one-heavy-edge weighting for n <= 12",
@@ -68,6 +71,12 @@ def runs(prop, tier):
             ("G(6) x A2, k in {%s}" % ks_q, [["--n", 6, "--alpha", "A2", "--ks", ks_q]])]
 
 
+def _build_for(h):
+    if h == "approx_long":
+        return vlib.build("approx_long", "approx.cpp", flags=vlib.BASE_FLAGS + ["-fno-access-control", "-DVH_WTYPE=long"])
+    return _build()
+
+
 def _build():
     return vlib.build("approx", "approx.cpp", flags=vlib.BASE_FLAGS + ["-fno-access-control"])
 
@@ -79,13 +88,17 @@ def run(prop, tier):
                      "weights integer or dyadic, so all comparisons are exact",
                      "C15 reads private members via -fno-access-control; member names are an interface of this harness (build failure = harness error)"]
     binary = _build()
+    binary_long = vlib.build("approx_long", "approx.cpp", flags=vlib.BASE_FLAGS + ["-fno-access-control", "-DVH_WTYPE=long"])
     c.builds_done()
     skipped = 0
     for bound, arglists in runs(prop, tier):
         for args in arglists:
-            r = vlib.run_harness(binary, list(args) + ["--props", prop, "--seed", vlib.seed(), "--deadline-s", int(c.remaining())])
+            is_long = bool(args) and args[0] == "@long"       # row over the integral weight type (harness compiled with -DVH_WTYPE=long)
+            if is_long:
+                args = args[1:]
+            r = vlib.run_harness(binary_long if is_long else binary, list(args) + ["--props", prop, "--seed", vlib.seed(), "--deadline-s", int(c.remaining())])
             skipped += r.get("c06_skipped_structurally_invalid", 0)
-            c.add_run(r, bound + " :: " + r["args"], CLASSES[prop], replay={"harness": "approx"})
+            c.add_run(r, bound + (" [weight type long]" if is_long else "") + " :: " + r["args"], CLASSES[prop], replay={"harness": "approx_long" if is_long else "approx"})
             if prop == "C15":
                 c.extra["spanners_with_dropped_edges"] = c.extra.get("spanners_with_dropped_edges", 0) + r.get("spanners_with_dropped_edges", 0)
     if prop == "C06":
@@ -95,7 +108,7 @@ def run(prop, tier):
 
 def replay(prop, path):
     rp = vlib.load_replay(path)
-    p = subprocess.run([_build(), "--replay-case", rp["case"], "--props", prop], stdout=subprocess.PIPE, text=True)
+    p = subprocess.run([_build_for((rp.get("replay") or {}).get("harness", "approx")), "--replay-case", rp["case"], "--props", prop], stdout=subprocess.PIPE, text=True)
     print(p.stdout)
     if "REPLAY-VIOLATION" in p.stdout:
         print("VIOLATION property=%s replay=%s" % (prop, path))
